@@ -131,6 +131,9 @@ impl Server {
                                 #[cfg(khttp_verif)]
                                 crate::verif::emit(crate::verif::Event::EpFree(handle_ptr));
                                 drop(Box::from_raw(handle_ptr as *mut Handle));
+                                #[cfg(khttp_verif)]
+                                crate::verif::emit(crate::verif::Event::EpStreamDrop(handle_ptr));
+                                drop(Box::from_raw(stream_ptr)); // the socket is not registered: close it
                             }
                         }
                     }
